@@ -1,6 +1,7 @@
 package goast
 
 import (
+	"errors"
 	"fmt"
 	"go/ast"
 	"go/token"
@@ -61,6 +62,12 @@ func (r *DecoratorResolver) ResolveIdent(file *ast.File, parent ast.Node, parent
 }
 
 func (r *DecoratorResolver) imports(file *ast.File) (map[string]string, error) {
+	if file == nil {
+		// The decorator only knows the file when it decorates an *ast.File (not an *ast.Package or
+		// an isolated node), and the imports can't be found without it.
+		return nil, errors.New("goast.DecoratorResolver needs the *ast.File to resolve identifiers")
+	}
+
 	r.filesM.Lock()
 	defer r.filesM.Unlock()
 
